@@ -290,21 +290,33 @@ fn judge_entity(entity: &str, sigs: &BTreeMap<String, J>, keys: &Keys, msg: &[u8
     let mut good = 0;
     let mut bad = 0;
     let mut unsure = 0;
+    let mut forged = 0;
     for (kid, val) in set {
         if !kid.starts_with("ed25519:") {
             continue; // other algorithms are ignored in both directions
         }
+        let plain_kid = kid.len() > 8 && kid[8..].bytes().all(|b| b.is_ascii_alphanumeric() || b == b'_');
         let pk = keys.get(entity).and_then(|k| k.get(kid));
         match (pk, val) {
             (Some(pk), J::Str(s)) => match check_sig(pk, s, msg) {
                 Some(true) => good += 1,
-                Some(false) => bad += 1,
+                Some(false) => {
+                    bad += 1;
+                    // "any change to signed content, signature or key makes it fail": a well-formed
+                    // signature under a supplied key that does not verify is such a change, whatever
+                    // other signatures the entity has
+                    if plain_kid {
+                        forged += 1;
+                    }
+                }
                 None => unsure += 1,
             },
             _ => bad += 1,
         }
     }
-    if good == 0 && unsure == 0 {
+    if forged > 0 {
+        VerifyExpect::MustFail(format!("a signature of {entity} under a supplied key does not verify"))
+    } else if good == 0 && unsure == 0 {
         VerifyExpect::MustFail(format!("no valid ed25519 signature for {entity}"))
     } else if bad == 0 && unsure == 0 {
         VerifyExpect::MustPass
